@@ -72,6 +72,11 @@ pub mod ext {
         ensures r == *a;
     /// std::mem::drop: no effect the contracts can see
     pub assume_specification<T: std::marker::Destruct> [std::mem::drop] (x: T);
+    // ---- small std combinators that plausible edits of calloop use (ASSUMED, standard meaning)
+    pub assume_specification<T> [bool::then_some] (b: bool, t: T) -> (r: Option<T>)
+        ensures r == (if b { Some(t) } else { None::<T> });
+    pub assume_specification<T, U, F: FnOnce(T) -> U> [Option::<T>::map_or] (o: Option<T>, default: U, f: F) -> (r: U)
+        ensures match o { Some(x) => call_ensures(f, (x,), r), None => r == default };
     // Cell: contents are opaque (DESIGN 1.4)
     // Two ghost predicates make calls on a Cell visible to contracts without modelling its contents (DESIGN 2.12):
     //  * cell_set_allowed(c, v): may-call side -- `set(c, v)` REQUIRES it; a function that owns the cell states in
